@@ -1,6 +1,89 @@
+(* C40 — Path names git refuses to write are refused.
+   Spec.git_refuses is git 2.39's verify_path (non-Windows build) with core.protectHFS / core.protectNTFS;
+   Model.component is gix_validate::path::component. *)
 From GixV.Base Require Import Bytes Outcome.
-From GixV.C40 Require Import Model Spec Proofs.
+From GixV.C40 Require Import Tables Model Spec Proofs ProofsNtfs ProofsUtf8 ProofsHfs ProofsMain.
 
+(* component() returns Ok or Err on every input *)
 Theorem component_never_panics_or_hangs : forall input symlink o,
   component input symlink o <> Panic /\ component input symlink o <> OutOfFuel.
 Proof. exact component_total. Qed.
+
+(* the loop of git's next_hfs_char terminates within the fuel the Spec gives it *)
+Theorem spec_next_hfs_char_fuel_suffices : forall s, next_hfs s <> HFuel.
+Proof. exact next_hfs_never_out_of_fuel. Qed.
+
+(* THE PROPERTY.  For every component (a byte string without NUL), every combination of
+   protect_windows / protect_hfs / protect_ntfs and every mode: if git (core.protectHFS = protect_hfs,
+   core.protectNTFS = protect_ntfs) refuses the name, component() returns an error - unless the input
+   is in one of the two known classes (".", ".." ; a backslash with protect_ntfs but not protect_windows). *)
+Theorem git_refuses_implies_gix_refuses_except_known : forall c o m,
+  ~ In x00 c -> known_class c o = false ->
+  git_refuses (gopts_of o m) c = true ->
+  exists e, component c (is_symlink m) o = Err e.
+Proof. exact git_refuses_gix_refuses. Qed.
+
+(* With protect_windows and protect_ntfs on (component::Options::default()) there is no exception. *)
+Theorem git_refuses_implies_gix_refuses_with_windows_protection : forall c o m,
+  protect_windows o = true -> protect_ntfs o = true ->
+  ~ In x00 c -> git_refuses (gopts_of o m) c = true ->
+  exists e, component c (is_symlink m) o = Err e.
+Proof. exact git_refuses_gix_refuses_windows. Qed.
+
+(* the full statement is false of the code: the two known classes are real *)
+Theorem git_refuses_implies_gix_refuses_refuted_dotdot :
+  exists c o m, ~ In x00 c /\ git_refuses (gopts_of o m) c = true /\ component c (is_symlink m) o = Ok tt.
+Proof. exists (bs ".."), (opts false false false), GRegular. exact dotdot_witness. Qed.
+
+Theorem git_refuses_implies_gix_refuses_refuted_backslash :
+  exists c o m, ~ In x00 c /\ git_refuses (gopts_of o m) c = true /\ component c (is_symlink m) o = Ok tt.
+Proof. exists (bs "a\.git"), (opts false true true), GRegular. exact backslash_witness. Qed.
+
+(* the parts, one per git function *)
+Theorem hfs_dotgit_refused : forall s, ~ In x00 s -> ~ In x2f s ->
+  Spec.is_hfs_dotgit s = true -> Model.is_dot_hfs s hfs_needle_git = true.
+Proof. exact hfs_dotgit_implies. Qed.
+Theorem hfs_dotgitmodules_refused : forall s, ~ In x00 s -> ~ In x2f s ->
+  Spec.is_hfs_dotgitmodules s = true -> Model.is_dot_hfs s hfs_needle_gitmodules = true.
+Proof. exact hfs_dotgitmodules_implies. Qed.
+Theorem ntfs_dotgit_refused : forall c, ~ In x5c c -> ~ In x2f c ->
+  Spec.is_ntfs_dotgit c = true -> Model.is_dot_git_ntfs c = true.
+Proof. exact ntfs_dotgit_implies. Qed.
+Theorem ntfs_dotgitmodules_refused : forall c,
+  Spec.is_ntfs_dotgitmodules c = true -> Model.is_dot_ntfs c ntfs_gitmodules ntfs_gitmodules_short = true.
+Proof. exact ntfs_gitmodules_implies. Qed.
+
+(* git's UTF-8 decoder against bstr's: what git decodes, bstr decodes to the same scalar and length;
+   what git cannot decode is, for bstr, ill-formed or U+FFFE / U+FFFF *)
+Theorem git_decodes_implies_bstr_decodes : forall s cp n, s <> [] -> pick_one s = Some (cp, n) ->
+  chars s = UCh cp n :: chars (skipn n s).
+Proof. intros s cp n H1 H2. exact (proj1 (pick_some s cp n H1 H2)). Qed.
+Theorem git_undecodable_is_ill_formed_or_nonchar : forall s, s <> [] -> pick_one s = None ->
+  exists u rest, chars s = u :: rest /\ undecodable_for_git u = true.
+Proof. intros s H1 H2. destruct (pick_none s H1 H2) as (u & rest & A & B & _). eauto. Qed.
+
+(* Windows device names (git refuses these only in its Windows build; stated against a table of names):
+   every reserved name, bare, in any letter case, is a device for gix and is refused under
+   protect_windows + protect_ntfs.  Names with trailing spaces / extensions / streams: tested only. *)
+Theorem windows_device_names_refused_partial : forall d a o sym,
+  In d device_names -> eq_ic a d = true ->
+  protect_windows o = true -> protect_ntfs o = true ->
+  is_win_device a = true /\ exists e, component a sym o = Err e.
+Proof. exact device_names_refused. Qed.
+
+(* non-vacuity: inputs satisfying the hypotheses of the main theorem, refused for different reasons *)
+Example ex_hfs_ignorable :   (* ".g<U+200C>it" under protect_hfs only *)
+  let c := [x2e; x67; xe2; x80; x8c; x69; x74] in let o := opts false true false in
+  ~ In x00 c /\ known_class c o = false /\ git_refuses (gopts_of o GRegular) c = true.
+Proof. cbv zeta. split; [vm_compute; intuition discriminate|]. split; vm_compute; reflexivity. Qed.
+Example ex_hfs_ill_formed_tail :   (* ".git\xff" under protect_hfs only: the repaired defect *)
+  let c := [x2e; x67; x69; x74; xff] in let o := opts false true false in
+  ~ In x00 c /\ known_class c o = false /\ git_refuses (gopts_of o GRegular) c = true
+  /\ component c false o = Err DotGitDir.
+Proof. cbv zeta. split; [vm_compute; intuition discriminate|]. repeat split; vm_compute; reflexivity. Qed.
+Example ex_ntfs_short_name :   (* "GI7EB~10 ." as a symlink under protect_ntfs only *)
+  let c := bs "GI7EB~10 ." in let o := opts false false true in
+  ~ In x00 c /\ known_class c o = false /\ git_refuses (gopts_of o GSymlink) c = true.
+Proof. cbv zeta. split; [vm_compute; intuition discriminate|]. split; vm_compute; reflexivity. Qed.
+Example ex_device : In (bs "conout$") device_names /\ eq_ic (bs "ConOut$") (bs "conout$") = true.
+Proof. split; [vm_compute; auto 10|vm_compute; reflexivity]. Qed.
